@@ -196,4 +196,649 @@ theorem viewSet_arr_new {κ : Nat → String} {s : State} (h : InvK κ s) (o : N
     unfold boundState
     simp only [h1, if_false]
 
+/-! ### append-only heaps -/
+
+/-- `st` has the heap of `s` plus newly allocated buffers: every buffer of `s` is literally unchanged. -/
+def HeapExt (s st : State) : Prop := ∃ extra, st.heap = s.heap ++ extra
+
+theorem HeapExt.refl (s : State) : HeapExt s s := ⟨[], by simp⟩
+
+theorem HeapExt.trans {s s1 s2 : State} (h1 : HeapExt s s1) (h2 : HeapExt s1 s2) : HeapExt s s2 := by
+  obtain ⟨e1, h1⟩ := h1
+  obtain ⟨e2, h2⟩ := h2
+  exact ⟨e1 ++ e2, by rw [h2, h1, List.append_assoc]⟩
+
+theorem HeapExt.len {s st : State} (h : HeapExt s st) : s.heap.length ≤ st.heap.length := by
+  obtain ⟨e, h⟩ := h; rw [h]; simp
+
+theorem HeapExt.buf {s st : State} (h : HeapExt s st) (b : Nat) (hb : b < s.heap.length) : st.buf b = s.buf b := by
+  obtain ⟨e, h⟩ := h
+  simp [State.buf, h, List.getElem?_append_left hb]
+
+theorem HeapExt.rows {s st : State} (h : HeapExt s st) (a : Arr) (hb : a.buf < s.heap.length) :
+    arrRows st a = arrRows s a ∧ arrDt st a = arrDt s a ∧ arrTrail st a = arrTrail s a := by
+  simp [arrRows, arrDt, arrTrail, h.buf a.buf hb]
+
+theorem HeapExt.valid {s st : State} (h : HeapExt s st) {a : Arr} (hv : ArrValid s a) : ArrValid st a :=
+  ⟨Nat.lt_of_lt_of_le hv.1 h.len, by rw [h.buf _ hv.1]; exact hv.2⟩
+
+theorem heapExt_alloc (s : State) (x : Buf) : HeapExt s { s with heap := s.heap ++ [x] } := ⟨[x], rfl⟩
+
+theorem heapExt_added (s : State) (o : Nat) (key : String) (a : Arr) : HeapExt s (addedState s o key a) :=
+  ⟨[], by simp [addedState]⟩
+
+theorem heapExt_bound (s : State) (o : Nat) (key : String) (a : Arr) : HeapExt s (boundState s o key a) := by
+  unfold boundState
+  split
+  · exact (heapExt_alloc s _).trans (heapExt_added _ _ _ _)
+  · exact heapExt_added _ _ _ _
+
+/-! ### `All2` plumbing -/
+
+theorem All2.append {β γ : Type} {R : β → γ → Prop} {l1 l2 : List β} {m1 m2 : List γ} (h1 : All2 R l1 m1)
+    (h2 : All2 R l2 m2) : All2 R (l1 ++ l2) (m1 ++ m2) := by
+  induction h1 with
+  | nil => exact h2
+  | cons hr _ ih => exact All2.cons hr ih
+
+theorem All2.mem_left {β γ : Type} {R : β → γ → Prop} {l : List β} {l' : List γ} (h : All2 R l l') :
+    ∀ b ∈ l, ∃ c ∈ l', R b c := by
+  induction h with
+  | nil => intro b hb; simp at hb
+  | cons h1 _ ih =>
+    intro b hb
+    simp at hb
+    rcases hb with rfl | hb
+    · exact ⟨_, by simp, h1⟩
+    · obtain ⟨c, hc, hr⟩ := ih b hb
+      exact ⟨c, by simp [hc], hr⟩
+
+theorem All2.map_eq {β γ δ : Type} {R : β → γ → Prop} {l : List β} {l' : List γ} (f : β → δ) (g : γ → δ)
+    (h : All2 R l l') (hfg : ∀ b c, R b c → g c = f b) : l'.map g = l.map f := by
+  induction h with
+  | nil => rfl
+  | cons h1 _ ih => simp [hfg _ _ h1, ih]
+
+/-! ### an object built from views -/
+
+/-- column `p` of the new object stands for source view `q` (an array of the state `s0` the constructor
+    started from): same key, reads the same rows; it *is* the source array unless the source has exactly
+    one row (numpy's length-1 broadcast copies), in which case it lives in a buffer allocated later. -/
+structure ColOf (s0 st : State) (q p : PropRef) : Prop where
+  key : p.key = q.key
+  valid : ArrValid st p.arr
+  rows : arrRows st p.arr = arrRows s0 q.arr
+  dt : arrDt st p.arr = arrDt s0 q.arr
+  trail : arrTrail st p.arr = arrTrail s0 q.arr
+  same : q.arr.idx.length ≠ 1 → p.arr = q.arr
+  fresh : q.arr.idx.length = 1 → s0.heap.length ≤ p.arr.buf
+
+theorem ColOf.mono {s0 st st' : State} {q p : PropRef} (h : ColOf s0 st q p) (hext : HeapExt st st') :
+    ColOf s0 st' q p := by
+  obtain ⟨r1, r2, r3⟩ := hext.rows p.arr h.valid.1
+  exact ⟨h.key, hext.valid h.valid, r1.trans h.rows, r2.trans h.dt, r3.trans h.trail, h.same, h.fresh⟩
+
+structure Built (s0 : State) (o : Nat) (srcs : List PropRef) (st : State) : Prop where
+  heap : HeapExt s0 st
+  objs : ∀ o', o' ≠ o → st.obj o' = s0.obj o'
+  natoms : (st.obj o).natoms = (s0.obj o).natoms
+  objsLen : st.objs.length = s0.objs.length
+  syss : st.syss = s0.syss
+  cols : All2 (ColOf s0 st) srcs (st.obj o).props
+
+theorem obj_added (s : State) (o o' : Nat) (key : String) (a : Arr) :
+    (addedState s o key a).obj o' =
+      if o' = o ∧ o < s.objs.length then { s.obj o with props := (s.obj o).props ++ [⟨key, a⟩] } else s.obj o' := by
+  simp only [addedState, obj_set]
+
+/-- one more `view[key] = array` on the object under construction. -/
+theorem Built.step {κ : Nat → String} {s0 st : State} {o : Nat} {srcs : List PropRef} (hb : Built s0 o srcs st)
+    (hinv : InvK κ st) (ho : o < s0.objs.length) (q : PropRef) (hq : ArrValid s0 q.arr)
+    (hlen : q.arr.idx.length = (s0.obj o).natoms) (hnew : ∀ q' ∈ srcs, q'.key ≠ q.key) :
+    Post (viewSet o q.key (.arr q.arr)) st (fun r st' => r = .ok () → Built s0 o (srcs ++ [q]) st') := by
+  have hkeys : (st.obj o).props.map (·.key) = srcs.map (·.key) :=
+    hb.cols.map_eq (·.key) (·.key) (fun _ _ hr => hr.key)
+  have hfind : (st.obj o).find q.key = none := by
+    rw [find_none_iff]
+    intro p hp hpk
+    have : p.key ∈ srcs.map (·.key) := by rw [← hkeys]; exact List.mem_map.mpr ⟨p, hp, rfl⟩
+    obtain ⟨q', hq', hk'⟩ := List.mem_map.mp this
+    exact hnew q' hq' (hk'.trans hpk)
+  have hqv : ArrValid st q.arr := hb.heap.valid hq
+  have ho' : o < st.objs.length := by rw [hb.objsLen]; exact ho
+  apply Post.mono (viewSet_arr_new hinv o q.key q.arr hqv hfind (by rw [hlen, hb.natoms]))
+  intro r st' hst' hr
+  have hst' := hst' hr
+  have hext : HeapExt st st' := by rw [hst']; exact heapExt_bound _ _ _ _
+  have hrows0 := hb.heap.rows q.arr hq.1
+  -- the new column
+  have hnewcol : ∃ a', (st'.obj o).props = (st.obj o).props ++ [⟨q.key, a'⟩] ∧ ColOf s0 st' q ⟨q.key, a'⟩ ∧
+      (∀ o', o' ≠ o → st'.obj o' = st.obj o') ∧ (st'.obj o).natoms = (st.obj o).natoms ∧
+      st'.objs.length = st.objs.length ∧ st'.syss = st.syss := by
+    rw [hst']
+    unfold boundState
+    split
+    · rename_i h1
+      refine ⟨⟨st.heap.length, [0]⟩, ?_, ?_, ?_, ?_, ?_, ?_⟩
+      · rw [obj_added]; simp [ho']; rfl
+      · have hbuf : (addedState { st with heap := st.heap ++ [⟨arrDt st q.arr, arrTrail st q.arr, arrRows st q.arr⟩] } o q.key
+            ⟨st.heap.length, [0]⟩).buf st.heap.length = ⟨arrDt st q.arr, arrTrail st q.arr, arrRows st q.arr⟩ := by
+          simp [State.buf, addedState]
+        have hl : (arrRows st q.arr).length = 1 := by simp [arrRows, h1]
+        refine ⟨rfl, ⟨by simp [addedState], ?_⟩, ?_, ?_, ?_, fun hne => absurd h1 hne, fun _ => ?_⟩
+        · intro i hi
+          simp only [List.mem_singleton] at hi
+          subst hi
+          rw [hbuf]; simp [hl]
+        · show [((addedState { st with heap := st.heap ++ [⟨arrDt st q.arr, arrTrail st q.arr, arrRows st q.arr⟩] } o q.key
+              ⟨st.heap.length, [0]⟩).buf st.heap.length).rows[0]?.getD []] = _
+          rw [hbuf, ← hrows0.1]
+          show [(arrRows st q.arr)[0]?.getD []] = arrRows st q.arr
+          match hrs : arrRows st q.arr, hl with
+          | [r], _ => simp
+        · show ((addedState { st with heap := st.heap ++ [⟨arrDt st q.arr, arrTrail st q.arr, arrRows st q.arr⟩] } o q.key
+              ⟨st.heap.length, [0]⟩).buf st.heap.length).dt = _
+          rw [hbuf]; exact hrows0.2.1
+        · show ((addedState { st with heap := st.heap ++ [⟨arrDt st q.arr, arrTrail st q.arr, arrRows st q.arr⟩] } o q.key
+              ⟨st.heap.length, [0]⟩).buf st.heap.length).trail = _
+          rw [hbuf]; exact hrows0.2.2
+        · exact hb.heap.len
+      · intro o' hne; rw [obj_added]; simp [hne]; rfl
+      · rw [obj_added]; simp [ho']; rfl
+      · simp [addedState]
+      · rfl
+    · rename_i h1
+      refine ⟨q.arr, ?_, ?_, ?_, ?_, ?_, ?_⟩
+      · rw [obj_added]; simp [ho']
+      · have hx : HeapExt st (addedState st o q.key q.arr) := heapExt_added _ _ _ _
+        obtain ⟨r1, r2, r3⟩ := hx.rows q.arr hqv.1
+        exact ⟨rfl, hx.valid hqv, r1.trans hrows0.1, r2.trans hrows0.2.1, r3.trans hrows0.2.2, fun _ => rfl,
+          fun h => absurd h h1⟩
+      · intro o' hne; rw [obj_added]; simp [hne]
+      · rw [obj_added]; simp [ho']
+      · simp [addedState]
+      · rfl
+  obtain ⟨a', hprops, hcol, hobjs, hnat, hlen', hsys⟩ := hnewcol
+  refine ⟨hb.heap.trans hext, fun o' hne => (hobjs o' hne).trans (hb.objs o' hne), hnat.trans hb.natoms,
+    hlen'.trans hb.objsLen, hsys.trans hb.syss, ?_⟩
+  rw [hprops]
+  exact All2.append (hb.cols.mono (fun _ _ hr => hr.mono hext)) (All2.cons hcol All2.nil)
+
+theorem Post.and {α : Type} {m : M α} {s : State} {Q1 Q2 : Except Err α → State → Prop} (h1 : Post m s Q1)
+    (h2 : Post m s Q2) : Post m s (fun r s' => Q1 r s' ∧ Q2 r s') := ⟨h1, h2⟩
+
+/-- the remaining `view[key] = array` assignments of the constructor. -/
+theorem built_loop {κ0 : Nat → String} {s0 : State} {o : Nat} (ho : o < s0.objs.length) :
+    ∀ (rest srcs : List PropRef) (st : State) (κ : Nat → String), InvK κ st → Ext κ0 s0 κ st → Built s0 o srcs st →
+      (∀ q ∈ rest, SrcOK κ0 s0 q.key (.arr q.arr) ∧ q.arr.idx.length = (s0.obj o).natoms ∧
+        ∀ q' ∈ srcs, q'.key ≠ q.key) →
+      (rest.map (·.key)).Nodup →
+      Post (forEach (rest.map (fun p => (p.key, Src.arr p.arr))) (fun kv => viewSet o kv.1 kv.2)) st
+        (fun r st' => r = .ok () → Built s0 o (srcs ++ rest) st') := by
+  intro rest
+  induction rest with
+  | nil =>
+    intro srcs st κ _ _ hb _ _
+    simp only [List.map_nil, List.append_nil]
+    intro _; exact hb
+  | cons q rest ih =>
+    intro srcs st κ hinv hext hb hq hnd
+    obtain ⟨hsrc, hlen, hnew⟩ := hq q (by simp)
+    simp only [List.map_cons]
+    show Post (M.bind (viewSet o q.key (.arr q.arr)) (fun _ => forEach _ _)) st _
+    apply (post_bind _ _ _ _).mpr
+    have h1 := inv_viewSet hinv o q.key (.arr q.arr) (hsrc.mono hext)
+    have h2 := hb.step hinv ho q hsrc.1 hlen hnew
+    apply Post.mono (Post.and h1 h2)
+    intro r st1 ⟨⟨⟨κ1, hinv1, hext1, _, _⟩, _⟩, hb1⟩
+    cases r with
+    | error e => intro hc; cases hc
+    | ok u =>
+      simp only []
+      have hb1 := hb1 rfl
+      have hnd' : (rest.map (·.key)).Nodup := (List.nodup_cons.mp hnd).2
+      have hqn : q.key ∉ rest.map (·.key) := (List.nodup_cons.mp hnd).1
+      have := ih (srcs ++ [q]) st1 κ1 hinv1 (hext.trans hext1) hb1
+        (by
+          intro q2 hq2
+          obtain ⟨a1, a2, a3⟩ := hq q2 (by simp [hq2])
+          refine ⟨a1, a2, ?_⟩
+          intro q' hq'
+          simp only [List.mem_append, List.mem_singleton] at hq'
+          rcases hq' with hq' | rfl
+          · exact a3 q' hq'
+          · intro hk
+            exact hqn (List.mem_map.mpr ⟨q2, hq2, hk.symm⟩))
+        hnd'
+      simpa [List.append_assoc] using this
+
+theorem built_push (s : State) (n : Nat) :
+    Built { s with objs := s.objs ++ [⟨n, []⟩] } s.objs.length [] { s with objs := s.objs ++ [⟨n, []⟩] } :=
+  ⟨HeapExt.refl _, fun _ _ => rfl, rfl, rfl, rfl, by rw [obj_push_eq]; exact All2.nil⟩
+
+/-- **`Atoms(**views)`**: the constructor called on views (all of leading length `n`, distinct keys)
+    builds an object whose columns are exactly those views, in the order `atype`, `pos`, rest. -/
+theorem mkAtomsWith_views {κ : Nat → String} {s : State} (h : InvK κ s) (n : Nat) (qa qp : PropRef)
+    (rest : List PropRef) (hka : qa.key = "atype") (hkp : qp.key = "pos")
+    (hall : ∀ q ∈ qa :: qp :: rest, SrcOK κ s q.key (.arr q.arr) ∧ q.arr.idx.length = n)
+    (hnd : ((qa :: qp :: rest).map (·.key)).Nodup) :
+    Post (mkAtomsWith n (.arr qa.arr) (.arr qp.arr) (rest.map (fun p => (p.key, Src.arr p.arr)))) s
+      (fun r s' => ∀ o', r = .ok o' → o' = s.objs.length ∧
+        Built { s with objs := s.objs ++ [⟨n, []⟩] } s.objs.length (qa :: qp :: rest) s') := by
+  unfold mkAtomsWith
+  rw [post_bind]
+  apply Post.of_eq _ _ (pushObj_eq _ s)
+  simp only []
+  obtain ⟨hinv0, hext0⟩ := inv_pushObj h n
+  generalize hs0 : ({ s with objs := s.objs ++ [⟨n, []⟩] } : State) = s0 at hinv0 hext0 ⊢
+  have ho : s.objs.length < s0.objs.length := by rw [← hs0]; simp
+  have hnat : (s0.obj s.objs.length).natoms = n := by rw [← hs0, obj_push_eq]
+  have hb0 : Built s0 s.objs.length [] s0 := by rw [← hs0]; exact built_push s n
+  have hall0 : ∀ q ∈ qa :: qp :: rest, SrcOK κ s0 q.key (.arr q.arr) ∧ q.arr.idx.length = (s0.obj s.objs.length).natoms := by
+    intro q hq
+    obtain ⟨a1, a2⟩ := hall q hq
+    exact ⟨a1.mono hext0, by rw [hnat]; exact a2⟩
+  have := built_loop (κ0 := κ) (s0 := s0) ho (qa :: qp :: rest) [] s0 κ hinv0 (Ext.refl κ s0) hb0
+    (fun q hq => ⟨(hall0 q hq).1, (hall0 q hq).2, fun q' hq' => by simp at hq'⟩) hnd
+  simp only [List.map_cons, List.nil_append] at this
+  -- unfold the first two iterations of the loop into the two explicit assignments
+  have hshape : ∀ (st : State) (Q : Except Err Unit → State → Prop),
+      Post (forEach ((qa.key, Src.arr qa.arr) :: (qp.key, Src.arr qp.arr) ::
+        rest.map (fun p => (p.key, Src.arr p.arr))) (fun kv => viewSet s.objs.length kv.1 kv.2)) st Q ↔
+      Post (do viewSet s.objs.length qa.key (.arr qa.arr); viewSet s.objs.length qp.key (.arr qp.arr);
+               forEach (rest.map (fun p => (p.key, Src.arr p.arr))) (fun kv => viewSet s.objs.length kv.1 kv.2)) st Q := by
+    intro st Q; rfl
+  rw [hshape, hka, hkp] at this
+  rw [post_bind]
+  rw [post_bind] at this
+  apply Post.mono this
+  intro r s1 hq1
+  cases r with
+  | error e => intro o' hc; cases hc
+  | ok u =>
+    simp only [] at hq1 ⊢
+    rw [post_bind]
+    rw [post_bind] at hq1
+    apply Post.mono hq1
+    intro r s2 hq2
+    cases r with
+    | error e => intro o' hc; cases hc
+    | ok u =>
+      simp only [] at hq2 ⊢
+      rw [post_bind]
+      apply Post.mono hq2
+      intro r s3 hq3
+      cases r with
+      | error e => intro o' hc; cases hc
+      | ok u =>
+        simp only []
+        rw [post_pure]
+        intro o' ho'
+        have : o' = s.objs.length := by
+          have : (Except.ok s.objs.length : Except Err Nat) = .ok o' := ho'
+          injection this with this; exact this.symm
+        exact ⟨this, hq3 rfl⟩
+
+/-! ### the number of atoms inferred from views of equal length -/
+
+theorem atomsCount_views (m n : Nat) (ta tp : List Nat) (h : atomsCount none (m :: ta) (m :: tp) = .ok n) : n = m := by
+  unfold atomsCount at h
+  cases ta with
+  | cons x xs => simp at h
+  | nil =>
+    simp only [] at h
+    cases tp with
+    | nil =>
+      simp only [] at h
+      by_cases h3 : m = 3
+      · subst h3; simp at h; omega
+      · simp [h3] at h
+    | cons d tp' =>
+      cases tp' with
+      | nil =>
+        simp only [] at h
+        by_cases h3 : d = 3
+        · subst h3; simp at h; omega
+        · simp [h3] at h
+      | cons e tp'' => simp at h
+
+/-! ### `Atoms(**view)` on a full set of views -/
+
+def restOf (views : List PropRef) : List PropRef := views.filter (fun p => p.key != "atype" && p.key != "pos")
+
+theorem mkAtoms_views_spec {κ : Nat → String} {s : State} (h : InvK κ s) (views : List PropRef) (m : Nat)
+    (hviews : ∀ q ∈ views, SrcOK κ s q.key (.arr q.arr) ∧ q.arr.idx.length = m)
+    (hnd : (views.map (·.key)).Nodup) (qa qp : PropRef)
+    (hfa : views.find? (fun p => p.key == "atype") = some qa) (hfp : views.find? (fun p => p.key == "pos") = some qp) :
+    Post (mkAtoms none ((views.find? (fun p => p.key == "atype")).map (fun p => Src.arr p.arr))
+      ((views.find? (fun p => p.key == "pos")).map (fun p => Src.arr p.arr))
+      ((views.filter (fun p => p.key != "atype" && p.key != "pos")).map (fun p => (p.key, Src.arr p.arr)))) s
+      (fun r s' => (∀ e, r = .error e → s' = s) ∧ ∀ o', r = .ok o' → o' = s.objs.length ∧
+        Built { s with objs := s.objs ++ [⟨m, []⟩] } s.objs.length (qa :: qp :: restOf views) s') := by
+  have hka : qa.key = "atype" := by simpa using List.find?_some hfa
+  have hkp : qp.key = "pos" := by simpa using List.find?_some hfp
+  have hqa : qa ∈ views := List.mem_of_find?_eq_some hfa
+  have hqp : qp ∈ views := List.mem_of_find?_eq_some hfp
+  unfold mkAtoms
+  rw [post_atomic, post_bind_getS]
+  simp only [hfa, hfp, Option.map_some, Option.getD_some]
+  rw [post_bind_liftE]
+  have hsa : (srcVal s (.arr qa.arr)).shape = m :: arrTrail s qa.arr := by simp [srcVal, arrVal, (hviews qa hqa).2]
+  have hsp : (srcVal s (.arr qp.arr)).shape = m :: arrTrail s qp.arr := by simp [srcVal, arrVal, (hviews qp hqp).2]
+  rw [hsa, hsp]
+  split
+  · rename_i n hn
+    have hnm := atomsCount_views m n _ _ hn
+    subst hnm
+    have hall : ∀ q ∈ qa :: qp :: restOf views, SrcOK κ s q.key (.arr q.arr) ∧ q.arr.idx.length = n := by
+      intro q hq
+      simp only [List.mem_cons] at hq
+      rcases hq with rfl | rfl | hq
+      · exact hviews _ hqa
+      · exact hviews _ hqp
+      · exact hviews q (List.mem_filter.mp hq).1
+    have hnd' : ((qa :: qp :: restOf views).map (·.key)).Nodup := by
+      simp only [List.map_cons, List.nodup_cons, List.mem_cons, List.mem_map, not_or, not_exists, not_and]
+      refine ⟨⟨by rw [hka, hkp]; decide, ?_⟩, ?_, ?_⟩
+      · intro q hq hk
+        have := (List.mem_filter.mp hq).2
+        rw [hk, hka] at this; simp at this
+      · intro q hq hk
+        have := (List.mem_filter.mp hq).2
+        rw [hk, hkp] at this; simp at this
+      · exact List.Nodup.sublist (List.Sublist.map _ List.filter_sublist) hnd
+    apply Post.mono (mkAtomsWith_views h n qa qp (restOf views) hka hkp hall hnd')
+    intro r s' hq
+    cases r with
+    | error e =>
+      refine ⟨fun _ _ => trivial, ?_⟩
+      intro o' hc; cases hc
+    | ok o' =>
+      refine ⟨?_, hq⟩
+      intro e hc; cases hc
+  · refine ⟨fun _ _ => trivial, ?_⟩
+    intro o' hc; cases hc
+
+/-! ### the views made by `__getitem__` -/
+
+theorem map_range_getD {α : Type} (l : List α) (d : α) : (List.range l.length).map (fun i => l[i]?.getD d) = l := by
+  apply List.ext_getElem
+  · simp
+  · intro i h1 h2
+    simp [List.getElem?_eq_getElem h2]
+
+/-- `q` is `p.arr[sel]` as made by `indexGet` (a view of the same buffer, or a copy in a new buffer). -/
+structure ViewOf (s : State) (sel : Sel) (κ1 : Nat → String) (s1 : State) (p q : PropRef) : Prop where
+  key : q.key = p.key
+  src : SrcOK κ1 s1 q.key (.arr q.arr)
+  len : q.arr.idx.length = sel.pos.length
+  rows : arrRows s1 q.arr = arrRows s (subArr p.arr sel)
+  dt : arrDt s1 q.arr = arrDt s p.arr
+  trail : arrTrail s1 q.arr = arrTrail s p.arr
+  view : sel.view = true → q.arr = subArr p.arr sel
+  copy : sel.view = false → s.heap.length ≤ q.arr.buf
+
+/-- extension of ghost and state by allocation only. -/
+def AExt (κ : Nat → String) (s : State) (κ' : Nat → String) (s' : State) : Prop := Ext κ s κ' s' ∧ HeapExt s s'
+
+theorem ViewOf.mono {s : State} {sel : Sel} {κ1 κ2 : Nat → String} {s1 s2 : State} {p q : PropRef}
+    (h : ViewOf s sel κ1 s1 p q) (hext : AExt κ1 s1 κ2 s2) : ViewOf s sel κ2 s2 p q := by
+  obtain ⟨r1, r2, r3⟩ := hext.2.rows q.arr h.src.1.1
+  exact ⟨h.key, h.src.mono hext.1, h.len, r1.trans h.rows, r2.trans h.dt, r3.trans h.trail, h.view, h.copy⟩
+
+theorem getItem_views {κ : Nat → String} {s : State} (h : InvK κ s) (o : Nat) (sel : Sel)
+    (hpos : ∀ p ∈ sel.pos, p < (s.obj o).natoms) :
+    Post (mapEach (s.obj o).props (fun p => do
+        let a ← indexGet p.arr sel
+        pure (⟨p.key, a⟩ : PropRef))) s
+      (fun r s1 => ∃ κ1, (InvK κ1 s1 ∧ Ext κ s κ1 s1 ∧ HeapExt s s1 ∧ s1.objs = s.objs ∧ s1.syss = s.syss) ∧
+        AExt κ s κ1 s1 ∧ ∀ views, r = .ok views → All2 (fun p q => ViewOf s sel κ1 s1 p q) (s.obj o).props views) := by
+  apply post_mapEach_ghost (s.obj o).props _
+    (fun g st => InvK g st ∧ Ext κ s g st ∧ HeapExt s st ∧ st.objs = s.objs ∧ st.syss = s.syss)
+    (fun p q g st => ViewOf s sel g st p q) AExt
+    (fun g st => ⟨Ext.refl g st, HeapExt.refl st⟩)
+    (fun _ _ _ _ _ _ h1 h2 => ⟨h1.1.trans h2.1, h1.2.trans h2.2⟩)
+    (fun _ _ _ _ _ _ hr he => hr.mono he)
+  · intro p hp g st ⟨hg, hge, hgh, hgo, hgs⟩
+    have hp0 := h.obj_props o p hp
+    have hpv : ArrValid st p.arr := hgh.valid hp0.valid
+    have hpk : g p.arr.buf = p.key := (hge.agree _ hp0.valid.1).trans hp0.key
+    have hposl : ∀ i ∈ sel.pos, i < p.arr.idx.length := by rw [hp0.len]; exact hpos
+    have hsub0 := hgh.rows (subArr p.arr sel) hp0.valid.1
+    have hp0r := hgh.rows p.arr hp0.valid.1
+    rw [post_bind]
+    rcases indexGet_cases p.arr sel st with ⟨e, he⟩ | ⟨hview, he⟩ | ⟨hview, he⟩
+    · apply Post.of_eq _ _ he
+      exact ⟨g, ⟨hg, hge, hgh, hgo, hgs⟩, ⟨Ext.refl g st, HeapExt.refl st⟩, fun c hc => by cases hc⟩
+    · apply Post.of_eq _ _ he
+      simp only []
+      rw [post_pure]
+      refine ⟨g, ⟨hg, hge, hgh, hgo, hgs⟩, ⟨Ext.refl g st, HeapExt.refl st⟩, ?_⟩
+      intro c hc
+      have : c = ⟨p.key, subArr p.arr sel⟩ := by
+        have : (Except.ok ⟨p.key, subArr p.arr sel⟩ : Except Err PropRef) = .ok c := hc
+        injection this with this; exact this.symm
+      subst this
+      have hcopy : sel.view = false → s.heap.length ≤ (subArr p.arr sel).buf := by
+        intro hc; rw [hview] at hc; cases hc
+      exact ⟨rfl, ⟨subArr_valid hpv sel hposl, hpk⟩, by simp [subArr], hsub0.1, hp0r.2.1, hp0r.2.2, fun _ => rfl, hcopy⟩
+    · apply Post.of_eq _ _ he
+      simp only []
+      rw [post_pure]
+      have hsub := subArr_valid hpv sel hposl
+      have hbuf : BufOK ⟨arrDt st p.arr, arrTrail st p.arr, arrRows st (subArr p.arr sel)⟩ := arrRows_bufOK hg hsub
+      obtain ⟨hinv1, hext1⟩ := inv_alloc hg _ hbuf p.key
+      have hx := heapExt_alloc st ⟨arrDt st p.arr, arrTrail st p.arr, arrRows st (subArr p.arr sel)⟩
+      refine ⟨_, ⟨hinv1, hge.trans hext1, hgh.trans hx, hgo, hgs⟩, ⟨hext1, hx⟩, ?_⟩
+      intro c hc
+      have : c = ⟨p.key, ⟨st.heap.length, List.range sel.pos.length⟩⟩ := by
+        have : (Except.ok ⟨p.key, ⟨st.heap.length, List.range sel.pos.length⟩⟩ : Except Err PropRef) = .ok c := hc
+        injection this with this; exact this.symm
+      subst this
+      have hlen : (arrRows st (subArr p.arr sel)).length = sel.pos.length := by simp [arrRows, subArr]
+      have hnoview : sel.view = true →
+          (⟨st.heap.length, List.range sel.pos.length⟩ : Arr) = subArr p.arr sel := by
+        intro hc; rw [hview] at hc; cases hc
+      refine ⟨rfl, ⟨⟨by simp, ?_⟩, by simp [upd]⟩, by simp, ?_, ?_, ?_, hnoview, fun _ => hgh.len⟩
+      · intro i hi
+        rw [buf_append_eq]
+        simpa [hlen] using hi
+      · show (List.range sel.pos.length).map (fun i =>
+            (({ st with heap := st.heap ++ [⟨arrDt st p.arr, arrTrail st p.arr, arrRows st (subArr p.arr sel)⟩] } : State).buf
+              st.heap.length).rows[i]?.getD []) = _
+        rw [buf_append_eq, ← hsub0.1]
+        have := map_range_getD (arrRows st (subArr p.arr sel)) []
+        rw [hlen] at this
+        exact this
+      · simp only [arrDt, buf_append_eq]; exact hp0r.2.1
+      · simp only [arrTrail, buf_append_eq]; exact hp0r.2.2
+  · exact ⟨h, Ext.refl κ s, HeapExt.refl s, rfl, rfl⟩
+
+/-! ### `__getitem__` refines "select records" -/
+
+theorem eq_of_key_eq (l : List PropRef) (hnd : (l.map (·.key)).Nodup) (a b : PropRef) (ha : a ∈ l) (hb : b ∈ l)
+    (hk : a.key = b.key) : a = b := by
+  induction l with
+  | nil => simp at ha
+  | cons x t ih =>
+    simp only [List.map_cons, List.nodup_cons, List.mem_map, not_exists, not_and] at hnd
+    simp only [List.mem_cons] at ha hb
+    rcases ha with rfl | ha
+    · rcases hb with rfl | hb
+      · rfl
+      · exact absurd hk.symm (hnd.1 b hb)
+    · rcases hb with rfl | hb
+      · exact absurd hk (hnd.1 a ha)
+      · exact ih hnd.2 ha hb
+
+theorem find?_of_key (l : List PropRef) (k : String) (q : PropRef) (hq : q ∈ l) (hk : q.key = k) :
+    ∃ q', l.find? (fun p => p.key == k) = some q' := by
+  cases hf : l.find? (fun p => p.key == k) with
+  | some q' => exact ⟨q', rfl⟩
+  | none =>
+    rw [List.find?_eq_none] at hf
+    have := hf q hq
+    simp [hk] at this
+
+theorem arrRows_subArr (s : State) (a : Arr) (sel : Sel) (hpos : ∀ i ∈ sel.pos, i < a.idx.length) :
+    arrRows s (subArr a sel) = sel.pos.map (fun i => (arrRows s a)[i]?.getD []) := by
+  simp only [arrRows, subArr, List.map_map]
+  apply List.map_congr_left
+  intro i hi
+  have hlt := hpos i hi
+  simp [List.getElem?_eq_getElem hlt]
+
+/-- **what `atoms[index]` returns.**  `o'` is a new object with one atom per selected position; for
+    every property `p` of the operand it has a property of the same name, dtype and trailing shape whose
+    row `j` is row `sel.pos[j]` of `p` (row alignment: every property is cut by the same positions);
+    nothing that existed before is modified; for list / boolean indices (and single-row results, which
+    numpy's length-1 broadcast copies) the new arrays live in buffers allocated by the call, for a
+    basic slice they are the views `p.arr[sel]` of the operand's arrays. -/
+structure GetItemRes (s : State) (o : Nat) (sel : Sel) (o' : Nat) (s' : State) : Prop where
+  id : o' = s.objs.length
+  natoms : (s'.obj o').natoms = sel.pos.length
+  heap : HeapExt s s'
+  objs : ∀ o'', o'' < s.objs.length → s'.obj o'' = s.obj o''
+  objsLen : s'.objs.length = s.objs.length + 1
+  syss : s'.syss = s.syss
+  keys : (s'.obj o').keys = "atype" :: "pos" :: (s.obj o).keys.filter (fun k => k != "atype" && k != "pos")
+  cols : ∀ p ∈ (s.obj o).props, ∃ p' ∈ (s'.obj o').props, p'.key = p.key ∧
+    arrRows s' p'.arr = sel.pos.map (fun i => (arrRows s p.arr)[i]?.getD []) ∧
+    arrDt s' p'.arr = arrDt s p.arr ∧ arrTrail s' p'.arr = arrTrail s p.arr ∧
+    ((sel.view = false ∨ sel.pos.length = 1) → s.heap.length ≤ p'.arr.buf) ∧
+    (sel.view = true → sel.pos.length ≠ 1 → p'.arr = subArr p.arr sel)
+
+/-- what `Built` on the views of an operand means for the operand's properties. -/
+theorem getItemRes_of_built {κ κ1 : Nat → String} {s s1 s' : State} (h : InvK κ s) (o : Nat) (sel : Sel)
+    (hpos : ∀ p ∈ sel.pos, p < (s.obj o).natoms) (views : List PropRef)
+    (hviews : All2 (fun p q => ViewOf s sel κ1 s1 p q) (s.obj o).props views) (hheap : HeapExt s s1)
+    (hobjs : s1.objs = s.objs) (hsys : s1.syss = s.syss) (qa qp : PropRef)
+    (hfa : views.find? (fun p => p.key == "atype") = some qa) (hfp : views.find? (fun p => p.key == "pos") = some qp)
+    (hb : Built { s1 with objs := s1.objs ++ [⟨sel.pos.length, []⟩] } s1.objs.length (qa :: qp :: restOf views) s') :
+    GetItemRes s o sel s.objs.length s' := by
+  have hka : qa.key = "atype" := by simpa using List.find?_some hfa
+  have hkp : qp.key = "pos" := by simpa using List.find?_some hfp
+  have hqa : qa ∈ views := List.mem_of_find?_eq_some hfa
+  have hqp : qp ∈ views := List.mem_of_find?_eq_some hfp
+  have hvkeys : views.map (·.key) = (s.obj o).props.map (·.key) :=
+    hviews.map_eq (·.key) (·.key) (fun _ _ hr => hr.key)
+  have hnd : (views.map (·.key)).Nodup := by
+    rw [hvkeys]
+    by_cases ho : o < s.objs.length
+    · exact h.nodup _ (obj_mem s o ho)
+    · rw [obj_ge s o (Nat.le_of_not_lt ho)]; simp [emptyObj]
+  have hlen : s1.objs.length = s.objs.length := by rw [hobjs]
+  rw [hlen] at hb
+  have hpkeys : (s'.obj s.objs.length).props.map (·.key) = (qa :: qp :: restOf views).map (·.key) :=
+    hb.cols.map_eq (·.key) (·.key) (fun _ _ hr => hr.key)
+  refine ⟨rfl, ?_, hheap.trans hb.heap, ?_, ?_, hb.syss.trans hsys, ?_, ?_⟩
+  · rw [hb.natoms, ← hlen, obj_push_eq]
+  · intro o'' ho''
+    rw [hb.objs o'' (Nat.ne_of_lt ho''), obj_push_lt _ _ _ (by rw [hlen]; exact ho'')]
+    simp [State.obj, hobjs]
+  · rw [hb.objsLen]; simp [hlen]
+  · show (s'.obj s.objs.length).props.map (·.key) = _
+    rw [hpkeys]
+    simp only [List.map_cons, hka, hkp]
+    congr 2
+    simp only [restOf, AtomsObj.keys]
+    rw [← hvkeys, List.filter_map]
+    rfl
+  · intro p hp
+    obtain ⟨q, hq, hvo⟩ := hviews.mem_left p hp
+    have hqin : q ∈ qa :: qp :: restOf views := by
+      by_cases h1 : q.key = "atype"
+      · have := eq_of_key_eq views hnd q qa hq hqa (h1.trans hka.symm)
+        simp [this]
+      · by_cases h2 : q.key = "pos"
+        · have := eq_of_key_eq views hnd q qp hq hqp (h2.trans hkp.symm)
+          simp [this]
+        · simp only [List.mem_cons]
+          right; right
+          exact List.mem_filter.mpr ⟨hq, by simp [h1, h2]⟩
+    obtain ⟨p', hp', hcol⟩ := hb.cols.mem_left q hqin
+    have hpl : ∀ i ∈ sel.pos, i < p.arr.idx.length := by rw [(h.obj_props o p hp).len]; exact hpos
+    refine ⟨p', hp', hcol.key.trans hvo.key, ?_, hcol.dt.trans hvo.dt, hcol.trail.trans hvo.trail, ?_, ?_⟩
+    · rw [hcol.rows]
+      show arrRows s1 q.arr = _
+      rw [hvo.rows, arrRows_subArr s p.arr sel hpl]
+    · intro hc
+      by_cases h1 : q.arr.idx.length = 1
+      · exact Nat.le_trans hheap.len (hcol.fresh h1)
+      · rw [hcol.same h1]
+        rcases hc with hc | hc
+        · exact hvo.copy hc
+        · exact absurd (hvo.len.trans hc) h1
+    · intro hv hne
+      have h1 : q.arr.idx.length ≠ 1 := by rw [hvo.len]; exact hne
+      rw [hcol.same h1]
+      exact hvo.view hv
+
+theorem views_len {s : State} {sel : Sel} {κ1 : Nat → String} {s1 : State} {props views : List PropRef}
+    (hviews : All2 (fun p q => ViewOf s sel κ1 s1 p q) props views) :
+    ∀ q ∈ views, SrcOK κ1 s1 q.key (.arr q.arr) ∧ q.arr.idx.length = sel.pos.length := by
+  intro q hq
+  obtain ⟨p, _, hv⟩ := hviews.mem_right q hq
+  exact ⟨hv.src, hv.len⟩
+
+theorem getItem_refines {κ : Nat → String} {s : State} (h : InvK κ s) (o : Nat) (ix : Index) (hap : HasAP (s.obj o)) :
+    Post (getItem o ix) s (fun r s' => (∀ e, r = .error e → s' = s) ∧
+      ∀ o', r = .ok o' → ∃ sel, resolve (s.obj o).natoms (atomsIndex ix) = .ok sel ∧ GetItemRes s o sel o' s') := by
+  unfold getItem
+  rw [post_atomic, post_bind_getS]
+  simp only []
+  rw [post_bind_liftE]
+  cases hres : resolve (s.obj o).natoms (atomsIndex ix) with
+  | error e =>
+    refine ⟨fun _ _ => trivial, ?_⟩
+    intro o' hc; cases hc
+  | ok sel =>
+    simp only []
+    obtain ⟨hpos, _⟩ := resolve_ok _ _ _ hres
+    rw [post_bind]
+    apply Post.mono (getItem_views h o sel hpos)
+    intro r s1 ⟨κ1, ⟨hinv1, hext1, hheap1, hobjs1, hsys1⟩, _, hall⟩
+    cases r with
+    | error e =>
+      refine ⟨fun _ _ => trivial, ?_⟩
+      intro o' hc; cases hc
+    | ok views =>
+      simp only []
+      have hviews := hall views rfl
+      -- the operand has `atype` and `pos`, hence so do the views
+      obtain ⟨aa, haa⟩ := Option.isSome_iff_exists.mp hap.1
+      obtain ⟨ap, hap'⟩ := Option.isSome_iff_exists.mp hap.2
+      obtain ⟨pa, hpa, hpak, _⟩ := find_mem _ _ _ haa
+      obtain ⟨pp, hpp, hppk, _⟩ := find_mem _ _ _ hap'
+      obtain ⟨qa0, hqa0, hva⟩ := hviews.mem_left pa hpa
+      obtain ⟨qp0, hqp0, hvp⟩ := hviews.mem_left pp hpp
+      obtain ⟨qa, hfa⟩ := find?_of_key views "atype" qa0 hqa0 (hva.key.trans hpak)
+      obtain ⟨qp, hfp⟩ := find?_of_key views "pos" qp0 hqp0 (hvp.key.trans hppk)
+      have hvkeys : views.map (·.key) = (s.obj o).props.map (·.key) :=
+        hviews.map_eq (·.key) (·.key) (fun _ _ hr => hr.key)
+      have hnd : (views.map (·.key)).Nodup := by
+        rw [hvkeys]
+        by_cases ho : o < s.objs.length
+        · exact h.nodup _ (obj_mem s o ho)
+        · rw [obj_ge s o (Nat.le_of_not_lt ho)]; simp [emptyObj]
+      apply Post.mono (mkAtoms_views_spec hinv1 views sel.pos.length (views_len hviews) hnd qa qp hfa hfp)
+      intro r s2 ⟨herr, hok⟩
+      cases r with
+      | error e =>
+        refine ⟨fun _ _ => trivial, ?_⟩
+        intro o' hc; cases hc
+      | ok o' =>
+        refine ⟨?_, ?_⟩
+        · intro e hc; cases hc
+        · intro o'' ho''
+          have : o'' = o' := by
+            have : (Except.ok o' : Except Err Nat) = .ok o'' := ho''
+            injection this with this; exact this.symm
+          subst this
+          obtain ⟨hid, hb⟩ := hok o'' rfl
+          refine ⟨sel, rfl, ?_⟩
+          have := getItemRes_of_built h o sel hpos views hviews hheap1 hobjs1 hsys1 qa qp hfa hfp hb
+          rw [hid, hobjs1]
+          exact this
+
 end Atomman.C06
